@@ -586,10 +586,10 @@ class MetadataManager:
         among same-version files (possible after historical races) prefers the
         most recently modified.
         """
-        try:
-            all_files = self.storage.list_files(self.metadata_path)
-        except Exception:
-            return None
+        # A listing failure must propagate: answering "no metadata found" when
+        # the scan could not run makes an existing table look uninitialised, and
+        # initialize_table() would then write a fresh v0 over it.
+        all_files = self.storage.list_files(self.metadata_path)
 
         best: Optional[Tuple[int, str]] = None
         best_mtime = -1.0
